@@ -17,15 +17,26 @@ def gen(rng, n_cases, max_n=36):
         metric = METRICS[t % 5]
         M = int(rng.choice([2, 2, 3, 3, 4]))
         N = int(rng.randint(2 * M + 2, max_n + 1))
-        F = comp_crowd.gen_front(rng, N, M)
+        big = t % 125 == 60 and t < 125 * (4 + n_cases // 2000)
+        if big:
+            # a few fronts with more than 1000 members (bi-objective: the compiled pcd kernel is defined there)
+            M = 2
+            N = int(1001 + rng.randint(0, 300))
+            # (the nearest-neighbour metrics on such fronts cost the Lean model minutes: thorough tier only)
+            metric = METRICS[(t // 125) % 5] if n_cases > 2000 else ["pcd", "ce", "cd"][(t // 125) % 3]
+        F = comp_crowd.gen_front(rng, N, M) if not big else comp_crowd.gen_front_kind(rng, N, M, int(rng.choice([0, 1])))
         n = len(F)
         if n < 3:
             continue
         k = rng.randint(3)
         lo = min(2 * M, n - 1)
         n_survive = int(rng.randint(lo, n)) if k else int(rng.randint(1, n))
+        if big:
+            n_survive = n - int(rng.randint(1, 4))
         yield {"cls": "rnc", "metric": metric, "n_survive": n_survive, "F": F, "G": np.zeros((n, 0)), "H": np.zeros((n, 0)),
-               "seed": int(rng.randint(2**31 - 1)), "both_engines": bool(rng.randint(2) == 0)}
+               "seed": int(rng.randint(2**31 - 1)), "both_engines": bool(rng.randint(2) == 0) and not big,
+               # another survival with another metric has just truncated the same front
+               "warm": "rival-metric" if rng.randint(3) == 0 else "none"}
 
 
 def case_from_record(rec):
